@@ -96,8 +96,8 @@ def check_reader(case, rec):
 
 
 @st.composite
-def reader_cases(draw, max_entries, max_rowids):
-    case = dict(draw(G.indx_cases(max_entries, max_rowids)))
+def reader_cases(draw, max_entries, max_rowids, very_long=False):
+    case = dict(draw(G.indx_cases(max_entries, max_rowids, very_long=very_long)))
     rw = draw(st.sampled_from([1, 2, 4, 4, 8]))
     if rw < 4:
         lim = (1 << (8 * rw)) - 1
@@ -222,7 +222,7 @@ SUBS = [
     Sub("fuzz", fuzz_check, runner=fuzz_runner, shards={"quick": 2, "thorough": 8}, weight=9),
     Sub("writer", check_writer, strategy=lambda tier: G.indx_cases(40 if tier == "quick" else 120, 50, very_long=True),
         examples={"quick": 3000, "thorough": 100000}),
-    Sub("reader", check_reader, strategy=lambda tier: reader_cases(30 if tier == "quick" else 80, 40),
+    Sub("reader", check_reader, strategy=lambda tier: reader_cases(30 if tier == "quick" else 80, 40, very_long=True),
         examples={"quick": 3000, "thorough": 100000}),
     Sub("size", check_size, enumerate=enum_size, exhaustive=True, shards={"quick": 2, "thorough": 2}),
     Sub("reader_totals", check_reader, enumerate=enum_reader_totals, exhaustive=True,
